@@ -274,6 +274,9 @@ func l2Leaves(w *World, q *QueryDef, l *Layout, recv []string) ([][]*protoCommon
 			}
 		}
 	}
+	if l2Inspect != nil {
+		l2Inspect(cl, l)
+	}
 	out := make([][]*protoCommonV1.TaskResponse, len(l.Leaves))
 	for i, leaf := range l.Leaves {
 		n := len(leaf.Shards)
